@@ -1,6 +1,6 @@
 (* C03 property theorems. This file contains only statements closed by
    [exact lemma] and Print Assumptions. *)
-From V Require Import Common.Base C03.Num C03.SpecOps C03.NumProofs C03.Tree C03.Fold C03.PowProofs C03.MiniJS C03.Worlds C03.TreeProofs C03.TreeProofs2 C03.TreeProofs3 C03.TreeProofs4 C03.TreeProofs5 C03.TreeProofs6 C03.TreeProofs7 C03.TreeProofs8 C03.TreeProofs9 C03.TreeProofs10 C03.Refuted.
+From V Require Import Common.Base C03.Num C03.SpecOps C03.NumProofs C03.Tree C03.Fold C03.PowProofs C03.MiniJS C03.Worlds C03.TreeProofs C03.TreeProofs2 C03.TreeProofs3 C03.TreeProofs4 C03.TreeProofs5 C03.TreeProofs6 C03.TreeProofs7 C03.TreeProofs8 C03.TreeProofs9 C03.TreeProofs10 C03.TreeProofs11 C03.Refuted.
 
 (* js_ast.ToInt32 computes ECMA-262 ToInt32 for every float64 (finite dyadic of
    any magnitude, NaN, infinities), whatever Go's implementation-defined
@@ -145,17 +145,19 @@ Print Assumptions eval_never_short.
    Covers templates, array/object literals with spreads, pure calls and new,
    conditionals, logical operators (left operand through SimplifyBooleanExpr),
    equality operators, typeof, and unused string-addition chains.
-   PARTIAL: [no_bad] excludes exactly the two shapes on which the statement is
-   false of the real code (refuted below): an object literal without spread
-   that has a computed key (finding A) and a pure call that is optional or
-   continues a chain (finding K).  The full statement with optional-chain
-   insertion (noOptChain = false) is false for parenthesized chains (finding J,
-   refuted below) and is not proved for the remaining inputs.
+   PARTIAL: [no_bad] excludes the shape on which the statement is false of the
+   real code (refuted below): an object literal without spread that has a
+   computed key (finding A).  For a call marked pure inside an optional chain
+   (finding K, repaired by a3926ba: unwrapped only when all its arguments can be
+   removed) [no_bad] asks that the arguments of the unwrapped call evaluate in
+   the model: the call evaluates without evaluating them when the chain
+   short-circuits, and the model is partial.  The statement with optional-chain
+   insertion (noOptChain = false; finding J, repaired by 01a3711) is not proved.
    Full statement: forall e, flags_ok W e -> ... same_effects (eval e) (eval_unused (simplify_unused ub noOC e)) *)
 Theorem simplify_unused_sound_partial :
   forall (W : world), world_ok W ->
     forall e tr res,
-    flags_ok W e -> no_bad e ->
+    flags_ok W e -> no_bad W e ->
     simplify_unused (w_unbound W) true e <> UFuel ->
     eval W tr e = Some res ->
     same_effects (Some res) (eval_unused W tr (simplify_unused (w_unbound W) true e)).
@@ -195,25 +197,25 @@ Theorem simplify_unused_object_key_refuted :
 Proof. exact simplify_unused_object_key_refuted_w. Qed.
 Print Assumptions simplify_unused_object_key_refuted.
 
-(* REFUTED (finding J): with optional-chain insertion, a != null && (a.q?.y).z is
-   simplified to a?.q?.y.z, which short-circuits where the input throws *)
-Theorem simplify_unused_paren_chain_refuted :
-  simplify_unused ub false paren_chain
-    = UExpr (EDot (EDot (EDot (EId 1 false false) s_q 1 false false) s_y 1 false false) s_z 2 false false)
+(* Finding J (repaired by 01a3711): with optional-chain insertion, the former
+   witness a != null && (a.q?.y).z is no longer turned into a?.q?.y.z (which
+   short-circuits where the input throws): it is kept and still throws *)
+Theorem simplify_unused_paren_chain_fixed :
+  simplify_unused ub false paren_chain = UExpr paren_chain
   /\ eval WJ [] paren_chain = Some ([], Throw (VStr s_TypeError))
-  /\ eval_unused WJ [] (simplify_unused ub false paren_chain) = Some ([], Val VUndef).
-Proof. exact simplify_unused_paren_chain_refuted_w. Qed.
-Print Assumptions simplify_unused_paren_chain_refuted.
+  /\ eval_unused WJ [] (simplify_unused ub false paren_chain) = Some ([], Throw (VStr s_TypeError)).
+Proof. exact simplify_unused_paren_chain_fixed_w. Qed.
+Print Assumptions simplify_unused_paren_chain_fixed.
 
-(* REFUTED (finding K): an unused pure optional call is unwrapped to its arguments,
-   which the input does not evaluate when the callee is null *)
-Theorem simplify_unused_pure_optional_call_refuted :
-  simplify_unused ub true pure_optional_call = UExpr (ECall (EId 1000 false false) [] 0 false)
+(* Finding K (repaired by a3926ba): the former witness, an unused pure optional call
+   whose argument has effects, is no longer unwrapped to its arguments (which the
+   input does not evaluate when the callee is null): it is kept *)
+Theorem simplify_unused_pure_optional_call_fixed :
+  simplify_unused ub true pure_optional_call = UExpr pure_optional_call
   /\ eval WJ [] pure_optional_call = Some ([], Val VUndef)
-  /\ eval_unused WJ [] (simplify_unused ub true pure_optional_call) = Some ([1000], Val VUndef).
-Proof. exact simplify_unused_pure_optional_call_refuted_w. Qed.
-Print Assumptions simplify_unused_pure_optional_call_refuted.
-
+  /\ eval_unused WJ [] (simplify_unused ub true pure_optional_call) = Some ([], Val VUndef).
+Proof. exact simplify_unused_pure_optional_call_fixed_w. Qed.
+Print Assumptions simplify_unused_pure_optional_call_fixed.
 
 (* ValuesLookTheSame (after fix 71e396b, which made it compare the typeof-identifier
    mark: finding P) is sound in every world: two expressions that look the same
@@ -235,3 +237,34 @@ Theorem values_look_the_same_typeof_mark_fixed :
       = Some (EIf (EId 1 false false) typeof_bare typeof_comma).
 Proof. exact (conj (proj1 values_look_the_same_typeof_mark) mangle_if_typeof_mark_kept). Qed.
 Print Assumptions values_look_the_same_typeof_mark_fixed.
+
+(* MangleIfExpr (optional-chain insertion switched off): in every world_ok world,
+   whenever the conditional test ? yes : no evaluates, the expression MangleIfExpr
+   returns for it evaluates to the same trace, the same completion and the same
+   value.  Covers all rewrites of the function: comma hoisting, negated test, equal
+   branches (test kept or dropped when removable), boolean arms, a ? a : b => a || b,
+   a ? b : a => a && b, the six rewrites that merge an arm into the test
+   (nested conditional, comma, ||, &&), the merge of two calls that differ in their
+   first argument (also spread; recursive), and a != null ? a : b => a ?? b.
+   The model is total (no fuel hypothesis: see mangle_if_total).
+   PARTIAL: noOptChain = true (the rewrite a != null ? a.b : undefined => a?.b is
+   not covered); [vls_ok] as for values_look_the_same_sound_partial;
+   [no_hole_args]: call arguments are not array holes.
+   Full statement: the same for noOptChain = false. *)
+Theorem mangle_if_equiv_partial :
+  forall (W : world), world_ok W ->
+  forall noNullish test yes no,
+    flags_ok W test -> flags_ok W yes -> flags_ok W no ->
+    vls_ok test -> vls_ok yes -> vls_ok no ->
+    no_hole_args yes -> no_hole_args no ->
+    exists e', mangle_if (w_unbound W) noNullish true test yes no = Some e' /\
+      forall tr res, eval W tr (EIf test yes no) = Some res -> eval W tr e' = Some res.
+Proof. exact mangle_if_equiv_all. Qed.
+Print Assumptions mangle_if_equiv_partial.
+
+(* the fuel of the MangleIfExpr model suffices for every input *)
+Theorem mangle_if_total :
+  forall unbound noNullish noOptChain test yes no,
+    exists e', mangle_if unbound noNullish noOptChain test yes no = Some e'.
+Proof. exact mangle_if_total_all. Qed.
+Print Assumptions mangle_if_total.
